@@ -453,6 +453,30 @@ def run(ctx):
         ctx.check(okall and rows >= 2, "D4-INSERT", DI, "own-name-own-map", "insert(entry): map chosen by entry.filetype, key = entry.filename, value = entry",
                   "Distinfo::insert does not file the entry under its own filename in the map of its own kind (%s)" % (why or "fewer than two kinds handled"), fn_span(ibody))
 
+    # ---- D4-ENTRY-NEW: Entry::new(filename, filepath, checksums, size) stores each argument in the field of its name and classifies the entry by
+    #      its FILENAME (the name the writer prints and the reader classifies by): an entry typed after its on-disk path changes section on re-parse
+    EN = "distinfo::Entry::new"
+    eps = ctx.paths(EN)
+    if eps:
+        ebody = ctx.body(EN)
+        okall, why, rows = True, "", 0
+        argn = {"filename": 1, "filepath": 2, "checksums": 3, "size": 4}
+        for p in ret_paths(eps):
+            a = agg_variant(p.end[1])
+            if not a or a[0] != "distinfo::Entry":
+                okall, why = False, "does not return an Entry literal"
+                continue
+            rows += 1
+            flds = dict(zip(p.end[1][5], a[2]))
+            for f_, n_ in argn.items():
+                if not carried_unchanged(flds.get(f_), lambda u, n_=n_: u == ("param", n_), extra_views=("Path::to_path_buf", "PathBuf as std::convert::From", "::into", "::to_owned")):
+                    okall, why = False, "field %s is not the %s argument" % (f_, f_)
+            ft = strip_refs(flds.get("filetype"))
+            if not (is_call(ft) and "distinfo::EntryType as std::convert::From" in ft[1] and call_args(ft) and carried_unchanged(call_args(ft)[0], lambda u: u == ("param", 1))):
+                okall, why = False, "filetype is %s, not EntryType::from(filename)" % term_str(ft)[:80]
+        ctx.check(okall and rows >= 1, "D4-ENTRY-NEW", EN, "fields-and-kind", "Entry::new stores its arguments by name and classifies by the filename",
+                  "Entry::new: %s" % (why or "no returning path"), fn_span(ebody))
+
     # ---- D1-DIGEST-NAME: the writer prints each checksum's algorithm with Digest's Display and the reader parses it back with Digest::from_str:
     #      the two tables must be mutually inverse (C13's D2-DISPLAY / D2-ROUNDTRIP / D2-PARSE verdicts, shared), or a written line is not read back
     share_rules(ctx, "C13", ("D2-DISPLAY", "D2-ROUNDTRIP", "D2-PARSE"), "D1-DIGEST-NAME", "<digest::Digest as std::fmt::Display>::fmt", 12)
